@@ -144,9 +144,17 @@ fn with_watchdog<T: Send + 'static>(secs: u64, f: impl FnOnce() -> T + Send + 's
         let r = std::panic::catch_unwind(std::panic::AssertUnwindSafe(f));
         let _ = tx.send(r);
     });
-    match rx.recv_timeout(Duration::from_secs(secs)) {
+    // A task takes milliseconds; `secs` is what a hang costs. On a loaded machine a slow task must
+    // not count as a hang: the first two timeouts of a process wait much longer than `secs`.
+    static TIMEOUTS: std::sync::atomic::AtomicUsize = std::sync::atomic::AtomicUsize::new(0);
+    let patient = TIMEOUTS.load(std::sync::atomic::Ordering::Relaxed) < 2;
+    match rx.recv_timeout(Duration::from_secs(if patient { secs.max(90) } else { secs })) {
         Ok(Ok(v)) => Some(v),
-        _ => None,
+        Ok(Err(_)) => None,
+        Err(_) => {
+            TIMEOUTS.fetch_add(1, std::sync::atomic::Ordering::Relaxed);
+            None
+        }
     }
 }
 
@@ -253,7 +261,7 @@ fn writer_case(ctx: &mut Ctx, threads: usize, sub: u64, emit: bool) {
     let expect = st_sink(&blocks, level);
     ctx.eval(if nblocks >= 2 { Some(fnv(case.as_bytes())) } else { None });
     match run_writer(blocks.clone(), level, policy, want, sub, None, false) {
-        None => ctx.fail("mt-writer-hang", format!("multithreaded writer did not finish within 8 s (or panicked): {nblocks} blocks, pool {threads}, policy {policy}"), case),
+        None => ctx.fail("mt-writer-hang", format!("multithreaded writer did not finish within the watchdog period (or panicked): {nblocks} blocks, pool {threads}, policy {policy}"), case),
         Some(o) => {
             if o.results.iter().any(|r| r != "ok") || o.finish != "ok" {
                 ctx.fail("mt-writer-error", format!("healthy sink but calls returned {:?} / finish {}", o.results, o.finish), case.clone());
@@ -432,7 +440,7 @@ fn reader_case(ctx: &mut Ctx, threads: usize, sub: u64) {
     let completion = gate.st.lock().unwrap_or_else(|e| e.into_inner()).ended.clone();
     ctx.eval(if nblocks >= 2 { Some(fnv(case.as_bytes())) } else { None });
     match got {
-        None => ctx.fail("mt-reader-hang", format!("multithreaded reader did not finish within 8 s (or panicked): {nblocks} blocks, pool {threads}, ops {ops:?}"), case),
+        None => ctx.fail("mt-reader-hang", format!("multithreaded reader did not finish within the watchdog period (or panicked): {nblocks} blocks, pool {threads}, ops {ops:?}"), case),
         Some((r, _fin)) => {
             // compare up to and including the first error; the state after an error is unspecified
             let cut = |v: &[String]| -> Vec<String> {
